@@ -170,6 +170,8 @@ func init() {
 			case 4:
 				if i%12 == 4 {
 					cfg.Directed = "repeatDraw"
+				} else {
+					cfg.Directed = "nestedKept"
 				}
 			}
 		}, nil)
